@@ -42,6 +42,12 @@ PreWriteFailure(e) == \/ \E i \in 1..N(e) : ~HsGood(S(e)[i])
                       \/ \E i \in 1..N(e) : Gets(e, i) /\ ~(GenLabelOK(S(e)[i]) \/ SamePathGroup(S(e)[i]) = "core")
                       \/ Conflict(e)
 
+\* the paths of every generating plugin with a plain answer reach the caller / the output directory
+\* (plugins are told apart by position, not by name: the same plugin may be asked for twice)
+FilesOf(s) == IF Has(s, "files") THEN DOMAIN s.files ELSE {}
+Delivered(e) == UNION { FilesOf(S(e)[i]) : i \in { k \in 1..N(e) : Gets(e, k) /\ S(e)[k].gen \in {"ok", "nested"} } }
+Answered(e)  == UNION { FilesOf(S(e)[i]) : i \in { k \in 1..N(e) : Gets(e, k) } }
+
 Recv(ev) == SelectSeq(ev, LAMBDA x : x \in {"Plugin:handshake", "ServiceGenerator:generate", "Plugin:goodbye"})
 CountOf(seq, x) == Cardinality({ k \in 1..Len(seq) : seq[k] = x })
 ExpectedRecv(e, i) ==
@@ -62,6 +68,9 @@ Checks(e) ==
         \A i \in 1..N(e) : e.per[i].started =>
             (e.per[i].reaped /\ Len(e.per[i].events) >= 2 /\ e.per[i].events[1] = "start"
              /\ e.per[i].events[Len(e.per[i].events)] = "exit")>>,
+    <<"successful-generation-delivers-every-plugin-file",
+        ~e.failed => IF e.mode = "cli" THEN Delivered(e) \subseteq Range(e.created_rel)
+                     ELSE Delivered(e) \subseteq Range(e.genfiles) /\ Cardinality(Range(e.genfiles)) = Cardinality(Answered(e))>>,
     <<"fails-iff-some-plugin-failed", e.failed <=> (SomeFailure(e) \/ CoreFails(e))>>,
     <<"failure-names-a-failing-plugin",
         (e.failed /\ \E i \in 1..N(e) : PluginFailed(e, i)) => \E i \in 1..N(e) : e.per[i].named /\ (PluginFailed(e, i) \/ Conflict(e))>> }
